@@ -60,10 +60,7 @@ theorem failSession_mono (c : Cfg) (s : St) (h : Mono s) : Mono (failSession c s
   · exact h
   · have h1 := sendSession_mono s { id := c.sid, from_ := c.node, to := s.remote, state := .failed, hasReason := true } h
     have h2 := mono_setState _ .failed (step_le_failed _) h1
-    simp only
-    split
-    · exact mono_log _ .close (by intro y hh; cases hh) h2
-    · exact h2
+    exact mono_log _ .close (by intro y hh; cases hh) h2
 
 theorem sendEstablished_mono (c : Cfg) (s : St) (n : Node) (h : Mono s) : Mono (sendEstablished c s n).2 := by
   unfold sendEstablished
